@@ -151,6 +151,7 @@ def check(prop, tier, seed, t0):
     n_ob = n_ok = 0
     by_backend = {}
     solver_time = 0.0
+    slowest = []
     samples = []
     functions, lemmas, inlined, used, lib_used = [], [], set(), set(), set()
     failing_ids = set()
@@ -178,6 +179,7 @@ def check(prop, tier, seed, t0):
         for o in mine:
             n_ob += 1
             solver_time += o['time']
+            slowest.append((round(o['time'], 2), o['id'], o['backend']))
             by_backend[o['backend']] = by_backend.get(o['backend'], 0) + 1
             v = o['verdict']
             if v == 'unknown-reachability':
@@ -347,6 +349,7 @@ def check(prop, tier, seed, t0):
                samples=samples or [dict(note='no obligation sample')],
                functions_under_contract=sorted(functions), lemmas=sorted(lemmas), inlined_callees=sorted(inlined),
                callee_contracts_used=sorted(used), by_backend=by_backend, solver_time_s=round(solver_time, 3),
+               slowest_obligations=[dict(time_s=t, id=i, backend=b) for t, i, b in sorted(slowest, reverse=True)[:5]],
                bounded_checks=bounded, known_findings=kf_lines, undecided=undecided, violations=viol_records,
                consistency_unconfirmed=unconfirmed,
                translation_crosscheck=dict(functions=xc_fns, cases=xc_cases, mismatches=xc_bad[:5]),
